@@ -334,7 +334,7 @@ MUTANTS = [
      "        ).flatten() + samples.array_to_namespace(log_abs_det_jacobian)\n\n        # Handle NaN values", "        ).flatten()\n\n        # Handle NaN values"),
     ("c05-mcmc-prior-ignored-when-inf", ["C05"], S + "samplers/mcmc.py",
      "        return to_numpy(log_prob).flatten()", "        return np.nan_to_num(to_numpy(log_prob).flatten(), neginf=-1e300)"),
-    ("c05-copy-array-aliases-numpy", ["C05"], S + "utils.py",
+    ("c05-copy-array-aliases-numpy", ["C05", "C04"], S + "utils.py",
      "            return xp.clone(xp.as_tensor(x))", "            return xp.as_tensor(x)"),
     # ---- C04
     ("c04-logit-jac-sign", ["C04"], S + "utils.py",
